@@ -575,6 +575,14 @@ class UnitDatabase(Singleton):
             caption=caption,
         )
 
+        if category in self.categories_to_quantity_types:
+            # The category is being redefined: quantities obtained for it up to now were built
+            # with the previous definition and must not be handed out again.
+            for key, quantity in list(self.quantities_cache.items()):
+                if not quantity.IsDerived() and quantity.GetCategory() == category:
+                    del self.quantities_cache[key]
+        self._category_unit_valid.clear()
+
         self.categories_to_quantity_types[category] = info
         return info
 
@@ -796,6 +804,8 @@ class UnitDatabase(Singleton):
             raise RuntimeError("Unit already registered: {} ({})".format(name, unit))
 
         quantity_type_list.append(info)
+        # a unit that was looked up (and refused) before being registered is valid from now on
+        self._category_unit_valid.clear()
 
     def AddUnitBase(self, quantity_type: str, name: str, unit: str) -> None:
         """
